@@ -81,6 +81,16 @@ func (j *joinIncr[K, V]) Stabilize(_ context.Context) error {
 	current := j.i.Value()
 	out := j.value
 
+	// Value changes of the inner incrementals only reach this node while it is linked
+	// into the graph. A node that has not changed since it (re)entered the graph --
+	// changedAt is zeroed when a node leaves it -- may have missed some, so it reads
+	// every linked inner incremental again.
+	if incr.ExpertNode(j).ChangedAt() == 0 {
+		for key, inner := range j.linked.All() {
+			out = out.Set(key, inner.Value())
+		}
+	}
+
 	// structural changes first: the set of inner incrementals being read.
 	for change := range j.last.SymmetricDiff(current, sameNode[V]) {
 		switch change.Kind {
